@@ -13,7 +13,7 @@ import (
 // C16: loss filter. Oracle: chance<=0 forwards all, >=100 none, else dropped count within 6 sigma of n*p;
 // forwarded chunks are an in-order, duplicate-free, unmodified subsequence of the injected ones.
 func runLoss(tier string, seed int64, shard, nshard int, r *res.Result) {
-	r.Rule = "streams of n datagrams (sizes 0..1500, unique ids) injected into a LossFilter in front of a recording sink NIC; chances incl. out-of-range values; oracle: deterministic ends, 6-sigma binomial bound in between for the whole stream and for every k-th-datagram sub-stream (k = 2,3,4,5,8: what one of k interleaved flows sees), forwarded = in-order duplicate-free unmodified subsequence (same chunk object, same addresses, same payload hash); distinct = (chance, stream) pairs"
+	r.Rule = "streams of n datagrams (sizes 0..1500, unique ids) injected into a LossFilter in front of a recording sink NIC; chances incl. out-of-range values; oracle: deterministic ends, 6-sigma binomial bound in between for the whole stream and for every k-th-datagram sub-stream (k = 2,3,4,5,8: what one of k interleaved flows sees), forwarded = in-order duplicate-free unmodified subsequence (same chunk object, same addresses, same payload hash); the same for 12 pairs of loss filters in series (incl. out-of-range chances); distinct = (chance, stream) pairs"
 	r.Assumptions = []string{"math/rand global source cannot be seeded from outside: verdict for 0<chance<100 is statistical (false-alarm probability about 2e-9 per stream or sub-stream, 23 bounds per chance value)"}
 	// every chance value 0..100 plus out-of-range ones: a bias may exist for particular values only
 	chances := []int{-5, 101, 250}
@@ -125,4 +125,82 @@ func runLoss(tier string, seed int64, shard, nshard int, r *res.Result) {
 			}
 		}
 	}
+	// two loss filters in series (the outer one's NIC is the inner filter): each drops on its own, so the pair forwards
+	// nothing when either chance is 100 or more and otherwise loses 1-(1-p1)(1-p2), a negative chance counting as 0
+	pairs := [][2]int{{200, 200}, {150, 150}, {110, 110}, {-100, 50}, {50, -100}, {30, 40}, {0, 100}, {100, 0}, {0, 0}, {10, 10}, {99, 99}, {1, 0}}
+	ns := 100000
+	for pi, pr := range pairs {
+		idx++
+		if idx%nshard != shard {
+			continue
+		}
+		var got []vn.Seen
+		sink := &vnet.VerifNIC{OnChunk: func(c vnet.Chunk) { got = append(got, vn.Snap(c)) }}
+		inner, err := vnet.NewLossFilter(sink, pr[1])
+		if err != nil {
+			r.Violate("loss:ctor", fmt.Sprintf("NewLossFilter(%d): %v", pr[1], err), nil)
+			continue
+		}
+		outer, err := vnet.NewLossFilter(inner, pr[0])
+		if err != nil {
+			r.Violate("loss:ctor", fmt.Sprintf("NewLossFilter(%d) over a loss filter: %v", pr[0], err), nil)
+			continue
+		}
+		sent := make([]vn.Seen, 0, ns)
+		for i := 0; i < ns; i++ {
+			c := vnet.VerifNewChunkUDP(vn.UDP("10.0.0.1", 1000+i%50), vn.UDP("10.0.0.2", 2000+i%7), vn.Payload(uint64(i+1), []int{0, 8, 20}[i%3]))
+			sent = append(sent, vn.Snap(c))
+			vnet.VerifInject(outer, c)
+		}
+		r.Eval(1)
+		r.Count("stacked_pairs", 1)
+		r.DistinctKey(fmt.Sprintf("stacked %d over %d", pr[0], pr[1]))
+		w := map[string]interface{}{"outer": pr[0], "inner": pr[1], "n": ns, "pair": pi}
+		j := 0
+		bad := ""
+		for _, g := range got {
+			for j < len(sent) && sent[j].Ptr != g.Ptr {
+				j++
+			}
+			if j == len(sent) {
+				bad = "a forwarded chunk is not a later injected chunk (reordered, duplicated or invented)"
+				break
+			}
+			if g.Hash != sent[j].Hash || g.Src != sent[j].Src || g.Dst != sent[j].Dst || g.Len != sent[j].Len {
+				bad = "a forwarded chunk was modified"
+				break
+			}
+			j++
+		}
+		if bad != "" {
+			r.Violate("loss:stacked:not-subsequence", fmt.Sprintf("chance %d over %d: %s", pr[0], pr[1], bad), w)
+			continue
+		}
+		cl := func(c int) float64 {
+			if c < 0 {
+				return 0
+			}
+			return float64(c) / 100
+		}
+		dropped := ns - len(got)
+		switch {
+		case pr[0] >= 100 || pr[1] >= 100:
+			if len(got) != 0 {
+				r.Violate("loss:stacked:forwarded-at-100", fmt.Sprintf("chance %d over %d forwarded %d of %d, one of the two filters must drop everything", pr[0], pr[1], len(got), ns), w)
+			}
+		default:
+			p := 1 - (1-cl(pr[0]))*(1-cl(pr[1]))
+			if p == 0 {
+				if dropped != 0 {
+					r.Violate("loss:stacked:dropped-at-0", fmt.Sprintf("chance %d over %d dropped %d of %d", pr[0], pr[1], dropped, ns), w)
+				}
+				break
+			}
+			tol := 6*math.Sqrt(float64(ns)*p*(1-p)) + 1
+			if dev := math.Abs(float64(dropped) - float64(ns)*p); dev > tol {
+				r.Violate("loss:stacked:rate", fmt.Sprintf("chance %d over %d dropped %d of %d (expected %.0f +- %.0f)", pr[0], pr[1], dropped, ns, float64(ns)*p, tol), w)
+			}
+		}
+	}
+
 }
